@@ -1,6 +1,6 @@
 /-
   Engine `legacy` (C14): `(iface (pub <value>) (priv <value>) …)` → merged interface; `(respell #hex)` → #hex;
-  `(gate <strict 0|1> <10|11|20|other>)` → 0|1
+  `(gate <strict 0|1> <10|11|20|other>)` → 0|1; `(group #relationship|_ …)` → 0|1
 -/
 import Cellml.Legacy.Model
 import Cellml.Wire
@@ -24,6 +24,13 @@ def answer (line : String) : String :=
   | some (.list [.atom "respell", .atom h]) =>
     match fromHex (h.drop 1).toString with
     | some cs => "#" ++ toHex (respell (String.ofList cs)).toList
+    | none => "bad-line"
+  | some (.list (.atom "group" :: rs)) =>
+    match rs.mapM (fun r => match r with
+        | .atom "_" => some none
+        | .atom h => (fromHex (h.drop 1).toString).map fun cs => some (String.ofList cs)
+        | _ => none) with
+    | some l => if isEncapsulation l then "1" else "0"
     | none => "bad-line"
   | some (.list [.atom "gate", .atom s, .atom v]) =>
     let ver := if v = "10" then Version.v10 else if v = "11" then .v11 else if v = "20" then .v20 else .other
